@@ -153,8 +153,7 @@ pub fn c13_ignored_dirs_cache_build() {
 }
 
 /// @harness id=c13_ordinary_dirs props=C13 tier=quick unwind=40 mem=8 cap=900
-/// Ordinary directories, and names that merely resemble ignored ones, are descended into (concrete): tests, src/pkg,
-/// gitx, builds, .gith, egg-info.
+/// Ordinary directories are descended into (concrete): tests/test_a.py, src/pkg/conftest.py, gitx/test_a.py.
 #[cfg_attr(kani, kani::proof)]
 #[cfg_attr(kani, kani::stub(core::slice::memchr::memchr, stubs::memchr_bytewise))]
 #[cfg_attr(kani, kani::stub(core::str::from_utf8, stubs::from_utf8_ascii))]
@@ -163,10 +162,20 @@ pub fn c13_ordinary_dirs() {
     row!("c13.dirs.tests", "/w", &["tests"], "test_a.py", &no, true);
     row!("c13.dirs.src", "/w", &["src", "pkg"], "conftest.py", &no, true);
     row!("c13.dirs.gitx", "/w", &["gitx"], "test_a.py", &no, true);
+    reach!("c13_ordinary_dirs.end");
+}
+
+/// @harness id=c13_lookalike_dirs props=C13 tier=quick unwind=40 mem=8 cap=900
+/// Names that merely resemble ignored ones are descended into (concrete): builds, .gith, egg-info.
+#[cfg_attr(kani, kani::proof)]
+#[cfg_attr(kani, kani::stub(core::slice::memchr::memchr, stubs::memchr_bytewise))]
+#[cfg_attr(kani, kani::stub(core::str::from_utf8, stubs::from_utf8_ascii))]
+pub fn c13_lookalike_dirs() {
+    let no: [Pattern; 0] = [];
     row!("c13.dirs.builds", "/w", &["builds"], "test_a.py", &no, true);
     row!("c13.dirs.dot_gith", "/w", &[".gith"], "test_a.py", &no, true);
     row!("c13.dirs.egg_info_plain", "/w", &["egg-info"], "test_a.py", &no, true);
-    reach!("c13_ordinary_dirs.end");
+    reach!("c13_lookalike_dirs.end");
 }
 
 /// @harness id=c13_relocation props=C13 tier=quick unwind=40 mem=8 cap=900
